@@ -93,7 +93,7 @@ func us(v int64) time.Duration { return time.Duration(v) * time.Microsecond }
 
 func reps() int {
 	if ev.Tier() == "thorough" {
-		return 120
+		return 100
 	}
 	return 40
 }
